@@ -35,6 +35,19 @@ func Bech(b []byte) string {
 
 func Acct(i int) string { return Bech(AcctBytes(i)) }
 
+// LongAcctBytes: a 32-byte account address (interchain / module-derived accounts have such addresses).
+// Its first 20 bytes equal universe account 5's address, its bytes [12:32] equal nobody's.
+func LongAcctBytes() []byte {
+	b := make([]byte, 32)
+	copy(b, AcctBytes(RichIx))
+	for j := 20; j < 32; j++ {
+		b[j] = byte(0xc0 + j)
+	}
+	return b
+}
+
+func LongAcct() string { return Bech(LongAcctBytes()) }
+
 // AcctIndex returns the universe index of a bech32 address, or -1.
 func AcctIndex(a string) int {
 	for i := 0; i < NAccounts; i++ {
